@@ -40,7 +40,10 @@ impl KeGroup for Curve25519 {
             .try_into()
             .ok()
             .map(MontgomeryPoint)
-            .filter(|pk| pk != &MontgomeryPoint::identity())
+            // Reject the identity and every other point of small order (on the curve
+            // or its twist), for which the Diffie-Hellman output would be all-zero
+            // for every private key
+            .filter(|pk| Scalar::from(8u8) * pk != MontgomeryPoint::identity())
             .ok_or(InternalError::PointError)
     }
 
